@@ -6,7 +6,7 @@ CONSTANTS
  KMAX = 3
  PIXTOKS = {0, 1, 3, 4, 5}
  BLENDRULE = "transparency"
- DIRECTED = TRUE
+ DIRECTED = "blend-mode-differs"
  GEN = TRUE
 INVARIANTS PlaybackExact RectOK Emit
 CHECK_DEADLOCK FALSE
